@@ -818,8 +818,14 @@ def delete_pointless_statements(source: str) -> str:
     """
     ast_tree = core.parse(source)
     safe_callables = parsing.safe_callable_names(ast_tree)
+    in_try_body = {
+        descendant
+        for node in core.walk(ast_tree, ast.Try)
+        for child in node.body
+        for descendant in ast.walk(child)
+    }
     for node in itertools.chain([ast_tree], parsing.iter_bodies_recursive(ast_tree)):
-        if isinstance(node, ast.Try):
+        if isinstance(node, ast.Try) or node in in_try_body:
             continue  # A statement in a try block may be there because it can raise
 
         for i, child in enumerate(node.body):
